@@ -19,8 +19,8 @@ Definition nthz {A : Type} (l : list A) (i : Z) : option A := if i <? 0 then Non
 (* ---- the hand-written reading of the tail (what Model/Skeleton.v [final_phase] assumes about the code) ---- *)
 Definition hand_final_guard (level piter : Z) : bool := (0 <? level) && (0 <? piter).
 Definition hand_yvec (ys : list Q) (cy : Q) : list Q := match ys with [y] => [y; cy] | _ => ys end.
-Definition hand_sdvec (ys sds : list Q) (sdlast : Q) (spec : bool) : list Q :=
-  match ys with [_] => if spec then sds ++ [sdlast] else sds | _ => sds end.
+Definition hand_sdvec (ys sds : list Q) (sdsup : Q) (spec : bool) : list Q :=
+  match ys with [_] => if spec then sds ++ [sdsup] else sds | _ => sds end.
 
 (* which attribute of the optimiser goes to which key of the OptimizeResult (optimize_result.py set_attributes), in its order;
    the first components are Model/History.v [set_attributes_keys] *)
